@@ -52,6 +52,9 @@ var c09Shapes = []c09Shape{
 	{"a,a!†", []ver{{Key: "a"}, {Key: "a!", Tomb: true}}},
 	{"a,a", []ver{{Key: "a"}, {Key: "a"}}},
 	{"a†,a", []ver{{Key: "a", Tomb: true}, {Key: "a"}}},
+	// a table that ENDS with a deletion marker ("a!@t" sorts before "a@t'"): the input range of its compaction ends at
+	// a@t', and a deeper table that starts with an older version of a lies just outside that range
+	{"a!,a†", []ver{{Key: "a!"}, {Key: "a", Tomb: true}}},
 }
 
 const c09FirstVersion = 8 // versions cross the 9 -> 10 digit change
@@ -310,7 +313,8 @@ func c09Units(tier string) []Unit {
 		for _, b := range blocks {
 			// one unit per first flush shape: the search below a first operation is independent
 			for _, first := range shapes {
-				cf := c09Cfg{L0: g.l0, Ratio: g.ratio, Block: b, Shapes: shapes, MaxFlush: maxFlush, MaxOps: maxOps}
+				// shape 10 only after the first flush (keeps the number of quick units)
+				cf := c09Cfg{L0: g.l0, Ratio: g.ratio, Block: b, Shapes: append(append([]int{}, shapes...), 10), MaxFlush: maxFlush, MaxOps: maxOps}
 				first := first
 				units = append(units, Unit{Name: fmt.Sprintf("L0=%d/ratio=%d/block=%d/first=%s", g.l0, g.ratio, b, c09Shapes[first].name), Weight: 1, Run: func(c *Ctx) {
 					c09SearchFrom(c, cf, first)
